@@ -5,6 +5,13 @@ PROP = dict(
             ["go", "run", "./sqlwhere", "{repo}", "{lean}/Hostd/Gen/ChainSql.lean"]],
     shard_extra=[dict(level="store"), dict(level="mgr")],
     driver_args=["c01/"],
+    # second engine: real chain (L2) — the wallet engine's `contracts` scenario family drives real
+    # consensus diffs through index.Manager.syncDB / contracts.Manager on a host node with a second
+    # chain manager mining forks; twin-node and end-to-end monitors
+    also=[dict(engine="wallet", harness="wallet", driver="drv_wallet", driver_args=[], flag_filter=r"^c01/", corpus_filter=r"^c01_",
+               shard_extra=None, extra=dict(family="contracts"), reset_op="reset", case_mode=False,
+               nontrivial=r"^(form|reorg|append|revise)", min_ops=5, min_kinds=3,
+               quick=dict(n=64, len=14, shards=8, timeout=400), thorough=dict(n=1600, len=18, shards=16, timeout=1700))],
     flag_filter=r"^c01/",
     quick=dict(n=96, len=40, shards=8, timeout=300),
     thorough=dict(n=4000, len=60, shards=16, timeout=1700),
